@@ -244,7 +244,9 @@ structure Snap (hash : List Entry → Bytes) (c0 : Assoc Path (List Entry))
   trees : ∀ K t, aget K c0 = some t → TreeOk t
   closed : ∀ K t, aget K c0 = some t → ∀ e ∈ t, e.isTree = true →
     (resolve ⟨c0, s0, []⟩ (K ++ [e.name]) e.oid).isSome = true
-  below : ∀ K, K ≠ [] → aget K c0 = none → ∀ K', K <+: K' → aget K' c0 = none
+  below : ∀ K, aget K c0 = none → ∀ K', K <+: K' → aget K' c0 = none
+  linked : ∀ K n tk, aget (K ++ [n]) c0 = some tk →
+    ∃ tp e, aget K c0 = some tp ∧ findName tp n = some e ∧ e.isTree = true
   store : StoreOk s0
   hashed : Hashed hash s0
   canon : StoreCanon s0
@@ -258,6 +260,7 @@ structure WPre (hash : List Entry → Bytes) (c0 : Assoc Path (List Entry))
   allCanon : StoreCanon st.store
   tree : TreeOk t
   closed : ∀ e ∈ t, e.isTree = true → (resolve ⟨c0, s0, []⟩ (P ++ [e.name]) e.oid).isSome = true
+  self : aget P c0 = some t
 
 structure WPost (hash : List Entry → Bytes) (c0 : Assoc Path (List Entry))
     (s0 : Assoc Bytes (List Entry)) (st : WState) (P : Path) (t : List Entry)
@@ -268,6 +271,7 @@ structure WPost (hash : List Entry → Bytes) (c0 : Assoc Path (List Entry))
   allCanon : StoreCanon r.1.store
   frame : ∀ K, ¬ (P <+: K ∧ K ≠ P) → aget K r.1.cache = aget K st.cache
   len : r.1.cache.length ≤ st.cache.length
+  erased : ∀ K, P <+: K → K ≠ P → aget K r.1.cache = none
   tree : TreeOk r.2
   nonnull : ∀ e ∈ r.2, e.oid ≠ nullId
   closed : Closed r.1.store r.2
@@ -347,11 +351,13 @@ theorem wstep_spec {hash : List Entry → Bytes} (hh : HashOk hash) {c0 : Assoc 
     (hmono : StoreMono s0 st.store) (hok : StoreOk st.store) (hhashed : Hashed hash st.store)
     (hall : StoreCanon st.store)
     (hclosed : e.isTree = true → (resolve ⟨c0, s0, []⟩ (P ++ [e.name]) e.oid).isSome = true)
-    (hgood : GoodEntry e) (hlen : st.cache.length ≤ fuel) :
+    (hgood : GoodEntry e) (hlen : st.cache.length ≤ fuel)
+    (hnocache : e.isTree = false → aget (P ++ [e.name]) c0 = none) :
     let r := wstep hash rec P st e
     StoreMono st.store r.1.store ∧ StoreOk r.1.store ∧ Hashed hash r.1.store ∧ StoreCanon r.1.store ∧
     (∀ K, ¬ (P ++ [e.name]) <+: K → aget K r.1.cache = aget K st.cache) ∧
-    r.1.cache.length ≤ st.cache.length ∧ EntryOut c0 s0 P r.1.store e r.2 := by
+    r.1.cache.length ≤ st.cache.length ∧
+    (∀ K, (P ++ [e.name]) <+: K → aget K r.1.cache = none) ∧ EntryOut c0 s0 P r.1.store e r.2 := by
   intro r
   by_cases hd : e.isTree = true
   · cases hc : aget (P ++ [e.name]) st.cache with
@@ -377,7 +383,10 @@ theorem wstep_spec {hash : List Entry → Bytes} (hh : HashOk hash) {c0 : Assoc 
             have : e.oid = nullId := by simpa using h
             rw [this, null_not_stored hh hsnap.hashed] at hs; cases hs
         rw [hr]
-        refine ⟨StoreMono.refl _, hok, hhashed, hall, fun _ _ => rfl, Nat.le_refl _, ?_, ?_, ?_⟩
+        refine ⟨StoreMono.refl _, hok, hhashed, hall, fun _ _ => rfl, Nat.le_refl _, ?_, ?_, ?_, ?_⟩
+        · intro K hK
+          rw [hagree K hK]
+          exact hsnap.below (P ++ [e.name]) hc0 K hK
         · intro e' ho
           simp only [hnn, Bool.false_eq_true, if_false, Option.some.injEq] at ho
           subst ho
@@ -403,14 +412,14 @@ theorem wstep_spec {hash : List Entry → Bytes} (hh : HashOk hash) {c0 : Assoc 
             apply lookupIn_congr (ed := storeEd s0) (ed' := ⟨c0, s0, []⟩) rfl
             intro K hK hne'
             have h1 : aget K c0 = none :=
-              hsnap.below (P ++ [e.name]) (by simp) hc0 K hK
+              hsnap.below (P ++ [e.name]) hc0 K hK
             simp [h1, storeEd, aget]
     | some sub =>
       -- a directory with a cached tree: write that first
       have hc0 : aget (P ++ [e.name]) c0 = some sub := by
         rw [← hagree _ (List.prefix_refl _)]; exact hc
       have hpre : WPre hash c0 s0 { st with cache := aerase (P ++ [e.name]) st.cache } (P ++ [e.name]) sub := by
-        refine ⟨?_, hmono, hok, hhashed, hall, hsnap.trees _ _ hc0, hsnap.closed _ _ hc0⟩
+        refine ⟨?_, hmono, hok, hhashed, hall, hsnap.trees _ _ hc0, hsnap.closed _ _ hc0, hc0⟩
         intro K hK hne
         show aget K (aerase (P ++ [e.name]) st.cache) = aget K c0
         rw [aget_aerase_ne _ hne]; exact hagree K hK
@@ -427,13 +436,21 @@ theorem wstep_spec {hash : List Entry → Bytes} (hh : HashOk hash) {c0 : Assoc 
       have hlen' : (rec { st with cache := aerase (P ++ [e.name]) st.cache } (P ++ [e.name]) sub).1.cache.length
           ≤ st.cache.length :=
         Nat.le_trans hpost.len (aerase_length_le _ _)
+      have herased : ∀ K, (P ++ [e.name]) <+: K →
+          aget K (rec { st with cache := aerase (P ++ [e.name]) st.cache } (P ++ [e.name]) sub).1.cache = none := by
+        intro K hK
+        by_cases hKe : K = P ++ [e.name]
+        · subst hKe
+          rw [hpost.frame _ (fun h => h.2 rfl)]
+          exact aget_aerase_self _ _
+        · exact hpost.erased K hK hKe
       have hresolve0 : resolve ⟨c0, s0, []⟩ (P ++ [e.name]) e.oid = some sub := by
         simp [resolve, hc0]
       by_cases hempty : (rec { st with cache := aerase (P ++ [e.name]) st.cache } (P ++ [e.name]) sub).2.isEmpty = true
       · have hr : r = ((rec { st with cache := aerase (P ++ [e.name]) st.cache } (P ++ [e.name]) sub).1, none) := by
           simp [r, wstep, hd, hc, hempty]
         rw [hr]
-        refine ⟨hpost.mono, hpost.storeOk, hpost.hashed, hpost.allCanon, hframe, hlen', ?_, ?_, ?_⟩
+        refine ⟨hpost.mono, hpost.storeOk, hpost.hashed, hpost.allCanon, hframe, hlen', herased, ?_, ?_, ?_⟩
         · intro e' ho; cases ho
         · intro e' ho; cases ho
         · intro qs
@@ -467,7 +484,7 @@ theorem wstep_spec {hash : List Entry → Bytes} (hh : HashOk hash) {c0 : Assoc 
         rw [hr]
         refine ⟨hpost.mono.trans hm1, storeOk_aset hh hpost.hashed hpost.storeOk hpost.tree hpost.closed,
           hashed_aset hpost.hashed r0.2, storeCanon_aset hh hpost.hashed hpost.allCanon hpost.canon,
-          hframe, hlen', ?_, ?_, ?_⟩
+          hframe, hlen', herased, ?_, ?_, ?_⟩
         · intro e' ho
           simp only [Option.some.injEq] at ho
           subst ho
@@ -493,7 +510,10 @@ theorem wstep_spec {hash : List Entry → Bytes} (hh : HashOk hash) {c0 : Assoc 
     have hr : r = (st, if e.oid == nullId then none else some e) := by
       simp [r, wstep, hd']
     rw [hr]
-    refine ⟨StoreMono.refl _, hok, hhashed, hall, fun _ _ => rfl, Nat.le_refl _, ?_, ?_, ?_⟩
+    refine ⟨StoreMono.refl _, hok, hhashed, hall, fun _ _ => rfl, Nat.le_refl _, ?_, ?_, ?_, ?_⟩
+    · intro K hK
+      rw [hagree K hK]
+      exact hsnap.below (P ++ [e.name]) (hnocache hd') K hK
     · intro e' ho
       by_cases hn : e.oid == nullId
       · simp [hn] at ho
@@ -526,7 +546,8 @@ theorem mapAccum_spec {hash : List Entry → Bytes} (hh : HashOk hash) {c0 : Ass
     {s0 : Assoc Bytes (List Entry)} (hsnap : Snap hash c0 s0) {fuel : Nat}
     {rec : WState → Path → List Entry → WState × List Entry} (hrec : RecOk hash c0 s0 fuel rec)
     (P : Path) (t : List Entry) (ht : TreeOk t)
-    (hclosed : ∀ e ∈ t, e.isTree = true → (resolve ⟨c0, s0, []⟩ (P ++ [e.name]) e.oid).isSome = true) :
+    (hclosed : ∀ e ∈ t, e.isTree = true → (resolve ⟨c0, s0, []⟩ (P ++ [e.name]) e.oid).isSome = true)
+    (hself : aget P c0 = some t) :
     ∀ (todo : List Entry), (∀ e ∈ todo, e ∈ t) → (todo.map (·.name)).Nodup →
     ∀ (st : WState), (∀ e ∈ todo, ∀ K, (P ++ [e.name]) <+: K → aget K st.cache = aget K c0) →
       StoreMono s0 st.store → StoreOk st.store → Hashed hash st.store → StoreCanon st.store →
@@ -538,13 +559,15 @@ theorem mapAccum_spec {hash : List Entry → Bytes} (hh : HashOk hash) {c0 : Ass
       (∀ K, (∀ e ∈ todo, ¬ (P ++ [e.name]) <+: K) →
         aget K (mapAccum (wstep hash rec P) st todo).1.cache = aget K st.cache) ∧
       (mapAccum (wstep hash rec P) st todo).1.cache.length ≤ st.cache.length ∧
+      (∀ e ∈ todo, ∀ K, (P ++ [e.name]) <+: K →
+        aget K (mapAccum (wstep hash rec P) st todo).1.cache = none) ∧
       Aligned (EntryOut c0 s0 P (mapAccum (wstep hash rec P) st todo).1.store) todo
         (mapAccum (wstep hash rec P) st todo).2 := by
   intro todo
   induction todo with
   | nil =>
     intro _ _ st _ _ hok hha hall _
-    exact ⟨StoreMono.refl _, hok, hha, hall, fun _ _ => rfl, Nat.le_refl _, trivial⟩
+    exact ⟨StoreMono.refl _, hok, hha, hall, fun _ _ => rfl, Nat.le_refl _, by simp, trivial⟩
   | cons e es ih =>
     intro hsub hnd st hagree hmono hok hha hall hlen
     have het : e ∈ t := hsub e (by simp)
@@ -552,8 +575,21 @@ theorem mapAccum_spec {hash : List Entry → Bytes} (hh : HashOk hash) {c0 : Ass
       have := hnd
       simp only [List.map_cons] at this
       exact List.nodup_cons.1 this
-    obtain ⟨m1, ok1, ha1, all1, fr1, len1, out1⟩ := wstep_spec hh hsnap hrec st P e
-      (hagree e (by simp)) hmono hok hha hall (hclosed e het) (ht.good e het) hlen
+    have hnocache : e.isTree = false → aget (P ++ [e.name]) c0 = none := by
+      intro hd
+      cases hc : aget (P ++ [e.name]) c0 with
+      | none => rfl
+      | some tk =>
+        obtain ⟨tp, e2, h1, h2, h3⟩ := hsnap.linked P e.name tk hc
+        rw [hself] at h1
+        simp only [Option.some.injEq] at h1
+        subst h1
+        have := (findName_eq_some_iff ht.uniq).1 h2
+        have : e2 = e := uniq_name_eq ht.uniq this.1 het this.2
+        subst this
+        rw [hd] at h3; cases h3
+    obtain ⟨m1, ok1, ha1, all1, fr1, len1, er1, out1⟩ := wstep_spec hh hsnap hrec st P e
+      (hagree e (by simp)) hmono hok hha hall (hclosed e het) (ht.good e het) hlen hnocache
     have hagree' : ∀ e' ∈ es, ∀ K, (P ++ [e'.name]) <+: K →
         aget K (wstep hash rec P st e).1.cache = aget K c0 := by
       intro e' he' K hK
@@ -562,12 +598,23 @@ theorem mapAccum_spec {hash : List Entry → Bytes} (hh : HashOk hash) {c0 : Ass
         exact hnd'.1 (List.mem_map.2 ⟨e', he', h⟩)
       rw [fr1 K (under_child_ne hne hK).1]
       exact hagree e' (List.mem_cons_of_mem _ he') K hK
-    obtain ⟨m2, ok2, ha2, all2, fr2, len2, out2⟩ := ih (fun x hx => hsub x (List.mem_cons_of_mem _ hx)) hnd'.2
+    obtain ⟨m2, ok2, ha2, all2, fr2, len2, er2, out2⟩ := ih (fun x hx => hsub x (List.mem_cons_of_mem _ hx)) hnd'.2
       (wstep hash rec P st e).1 hagree' (hmono.trans m1) ok1 ha1 all1 (Nat.le_trans len1 hlen)
     simp only [mapAccum]
-    refine ⟨m1.trans m2, ok2, ha2, all2, ?_, Nat.le_trans len2 len1, ⟨out1.mono ok1 m2, out2⟩⟩
-    intro K hK
-    rw [fr2 K (fun x hx => hK x (List.mem_cons_of_mem _ hx)), fr1 K (hK e (by simp))]
+    refine ⟨m1.trans m2, ok2, ha2, all2, ?_, Nat.le_trans len2 len1, ?_, ⟨out1.mono ok1 m2, out2⟩⟩
+    · intro K hK
+      rw [fr2 K (fun x hx => hK x (List.mem_cons_of_mem _ hx)), fr1 K (hK e (by simp))]
+    · intro x hx K hK
+      rcases List.mem_cons.1 hx with rfl | hx'
+      · -- erased by the head step, untouched by the rest (other names)
+        rw [fr2 K ?_]
+        · exact er1 K hK
+        · intro y hy
+          have hne : x.name ≠ y.name := by
+            intro h
+            exact hnd'.1 (List.mem_map.2 ⟨y, hy, h.symm⟩)
+          exact (under_child_ne hne hK).1
+      · exact er2 x hx' K hK
 
 theorem findName_cons (x : Entry) (l : List Entry) (n : Bytes) :
     findName (x :: l) n = if x.name = n then some x else findName l n := by
@@ -675,7 +722,7 @@ theorem writeTree_spec {hash : List Entry → Bytes} (hh : HashOk hash) {c0 : As
   | succ fuel ih =>
     intro st P t hpre hlt
     have hnd : (t.map (·.name)).Nodup := hpre.tree.uniq
-    obtain ⟨m, ok, ha, hallc, fr, len, al⟩ := mapAccum_spec hh hsnap ih P t hpre.tree hpre.closed t
+    obtain ⟨m, ok, ha, hallc, fr, len, er, al⟩ := mapAccum_spec hh hsnap ih P t hpre.tree hpre.closed hpre.self t
       (fun _ h => h) hnd st
       (fun e _ K hK => hpre.agree K ((List.prefix_append P [e.name]).trans hK) (by
         intro h; subst h; exact not_prefix_append_singleton _ _ hK))
@@ -684,13 +731,41 @@ theorem writeTree_spec {hash : List Entry → Bytes} (hh : HashOk hash) {c0 : As
     show WPost hash c0 s0 st P t
       ((mapAccum (wstep hash (writeTree hash fuel) P) st t).1,
        (mapAccum (wstep hash (writeTree hash fuel) P) st t).2.filterMap id)
-    refine ⟨m, ok, ha, hallc, ?_, len, tok, nn, cl, Canon.mk _ tok nn cl cn, ?_⟩
+    refine ⟨m, ok, ha, hallc, ?_, len, ?_, tok, nn, cl, Canon.mk _ tok nn cl cn, ?_⟩
     · intro K hK
       apply fr
       intro e _ hpre'
       apply hK
       exact ⟨(List.prefix_append P [e.name]).trans hpre', by
         intro h; subst h; exact not_prefix_append_singleton _ _ hpre'⟩
+    · -- every cache entry strictly below `P` is gone
+      intro K hK hne
+      obtain ⟨S, rfl⟩ := hK
+      cases S with
+      | nil => exact absurd (by simp) hne
+      | cons n rest =>
+        have hpre' : (P ++ [n]) <+: (P ++ n :: rest) := ⟨rest, by simp [List.append_assoc]⟩
+        by_cases hex : ∃ e ∈ t, e.name = n
+        · obtain ⟨e, he, hen⟩ := hex
+          exact er e he _ (hen ▸ hpre')
+        · -- no entry of that name: nothing was cached there in the first place
+          have hc0 : aget (P ++ [n]) c0 = none := by
+            cases hc : aget (P ++ [n]) c0 with
+            | none => rfl
+            | some tk =>
+              obtain ⟨tp, e2, h1, h2, _⟩ := hsnap.linked P n tk hc
+              rw [hpre.self] at h1
+              simp only [Option.some.injEq] at h1
+              subst h1
+              have := (findName_eq_some_iff hpre.tree.uniq).1 h2
+              exact absurd ⟨e2, this.1, this.2⟩ hex
+          rw [fr _ (fun e he hpe => hex ⟨e, he, ((under_child_ne (m := n) (n := e.name)
+            (fun h => hex ⟨e, he, h.symm⟩) hpre').1 hpe).elim⟩)]
+          rw [hpre.agree _ ⟨n :: rest, rfl⟩ (by
+            intro h
+            have := congrArg List.length h
+            simp at this)]
+          exact hsnap.below _ hc0 _ hpre'
     · intro q
       cases q with
       | nil => rfl
